@@ -41,7 +41,12 @@ class MV(SV, MX):
 
 
 class DD(DirectedEdge):
-    """subclass of DirectedEdge"""
+    """subclass of DirectedEdge with a constructor of its own: positional ends and an option, no `**kwargs`
+    (code that builds links for the caller may pass the two ends and nothing else)"""
+
+    def __init__(self, v1=None, v2=None, lanes=2):
+        super().__init__(v1, v2)
+        self.lanes = lanes
 
 
 class UU(UnDirectedEdge):
